@@ -1026,6 +1026,8 @@ pub struct GenCfg {
     /// allow out-of-range integer literals, float literals on int columns, NULL literals
     pub hostile_literals: bool,
     pub allow_colcmp: bool,
+    /// string columns on which `contains(col, 's')` leaves are generated (n-gram index)
+    pub contains_cols: Vec<usize>,
 }
 
 pub struct PredGen<'a> {
@@ -1166,6 +1168,30 @@ impl<'a> PredGen<'a> {
         let col = self.pick_col(rng);
         let ty = &self.m.cols[col].ty;
         let class = class_of(ty);
+        if self.cfg.contains_cols.contains(&col) && rng.chance(2, 3) {
+            let pool = self.pools.get(&col).map(|v| v.as_slice()).unwrap_or(&[]);
+            let s = match rng.below(10) {
+                0..=5 if !pool.is_empty() => match rng.pick(pool) {
+                    // substring (in characters) of an existing value, length 0..=5
+                    Cell::Str(v) => {
+                        let chars: Vec<char> = v.chars().collect();
+                        if chars.is_empty() {
+                            String::new()
+                        } else {
+                            let a = rng.usize_below(chars.len());
+                            let len = rng.urange(0, 5).min(chars.len() - a);
+                            chars[a..a + len].iter().collect()
+                        }
+                    }
+                    _ => "ab".into(),
+                },
+                6 => String::new(),
+                7 => rng.pick(&["a", "ab", "é", "日", "日本", " ", "_", "%_"]).to_string(),
+                8 => rng.pick(&["abc", "zet", "anc", "lan", "pha", "Alp", "x y", "ééé", "nul", "ABC", "LAN"]).to_string(),
+                _ => (0..rng.urange(1, 6)).map(|_| *rng.pick(&['a', 'b', 'z', ' ', 'é', '日', '0', '_', 'Q'])).collect(),
+            };
+            return Pred::Contains { col, s };
+        }
         if *ty == ColTy::ListI32 {
             return if rng.chance(1, 8) {
                 Pred::IsNull { col, neg: rng.bool() }
